@@ -8,12 +8,13 @@ LEAN_MODULES = ["Gv.Props.C11"]
 REQUIRED_THEOREMS = ["Gv.Props.C11." + n for n in [
     "every_source_of_nondeterminism_is_accounted_for", "single_seeding_point", "seed_flag_decides",
     "matrix_independent_of_threads", "inInputOrder_arrival_independent", "runGen_bind", "runGen_replM_map",
-    "distboot_eq_seqboot_then_dist", "chain_roundtrip", "chain_fasta_nexus"]]
+    "distboot_eq_seqboot_then_dist", "chain_roundtrip", "chain_fasta_nexus", "chain_all_formats"]]
 LEVEL_TEXT = ("Lean theorems: (1) over the determinism facts regenerated with the Go type checker on every run (every map range, "
               "goroutine, clock / pid read and seeding call of the non-test code) — each is of a shape that cannot reach the output; "
               "(2) with --seed the clock is irrelevant; (3) pool results are independent of worker count and schedule, results put back "
               "in input order are independent of arrival order; (4) distboot = distance of seqboot for every seed; (5) any chain of "
-              "formats that round-trip returns the starting bytes (instantiated for FASTA/Nexus from the C02 theorems). Tied to /repo "
+              "formats that round-trip returns the starting bytes (chain_all_formats: instantiated for FASTA, Nexus, Phylip with all 8 writer "
+              "layouts and Clustal from the C02 round-trip theorems). Tied to /repo "
               "by T3 (regenerated facts), by exact replay of seeded commands on the binary (`cli_seeded`: the bytes predicted from the "
               "C10 programs on the math/rand replica) and by running every documented command of the freshly built binary several "
               "times with thread counts 1..16 and comparing stdout, stderr, exit status and every file written.")
@@ -32,8 +33,9 @@ RULE = ("every documented goalign command with representative flags, on random n
 PARTIAL = ["the bytes of each individual command are not modelled here (C01-C10, C12-C16 model the operations); C11's theorems are about "
            "the sources of nondeterminism, seeding, thread independence of the pool / ordered collection, distboot = seqboot + distance, "
            "and format chains",
-           "chain theorem instantiated for FASTA and Nexus only (Phylip / Clustal round trips are not yet theorems in C02); chains "
-           "through Phylip and Clustal are checked on the binary only",
+           "chain theorem instantiated for FASTA, Nexus, Phylip (8 layouts) and Clustal (chain_all_formats, under the hypotheses of "
+           "the C02 round-trip theorems: representable in every format used, counts within int64, version text without line break); "
+           "Stockholm is not a `reformat` target",
            "the Go runtime (map iteration order, scheduler) is outside the model: the facts say no map order / schedule can reach "
            "the output, the repeated runs look for a counterexample",
            "draw png / biojs and `completion` are not exercised"]
